@@ -181,7 +181,7 @@ func (fx *Fx) hardwired(st *State, fn *types.Func, call *ast.CallExpr, recv *Val
 			case "Done":
 				c.declareFun("ctx_done", []string{"Iface"}, "Int")
 				t := c.define("done", "Int", fmt.Sprintf("(ctx_done %s)", recv.T))
-				st.assume(fmt.Sprintf("(>= %s 0)", t))
+				st.assume(fmt.Sprintf("(and (>= %s 0) (<= %s %s))", t, t, fx.entryAlloc()))
 				st.assume(c.refTypeFact(t, fn.Type().(*types.Signature).Results().At(0).Type()))
 				return []Val{{T: t, S: "Int", GT: fn.Type().(*types.Signature).Results().At(0).Type()}}, true
 			case "Err":
@@ -261,4 +261,12 @@ func (fx *Fx) assumeLock(st *State, phi string) {
 	if fx.spec != nil {
 		st.assume(phi)
 	}
+}
+
+// entryAlloc: the allocation counter at function entry (objects reachable from the inputs are older).
+func (fx *Fx) entryAlloc() string {
+	if fx.entry != nil {
+		return fx.entry.alloc
+	}
+	return "0"
 }
